@@ -10,6 +10,7 @@ def rnd(seed):
     if '-r2' in seed: return 2
     if '-r3' in seed: return 3
     if '-r4' in seed: return 4
+    if '-r5' in seed: return 5
     return 0
 
 rows = []
@@ -36,14 +37,14 @@ for f in sorted(glob.glob('/verif/seeded/C*/meta.json')):
 def fmt(xs):
     return ', '.join(xs) if xs else '— (missed)'
 
-for r in (1, 2, 3, 4):
+for r in (1, 2, 3, 4, 5):
     rs = [x for x in rows if x['round'] == r]
     if not rs:
         continue
     print('**Round %d** (%d changes)' % (r, len(rs)))
     print()
-    if r == 4:
-        print('(first evaluation of round 4: only the check of the targeted property was run)')
+    if r >= 4:
+        print('(first evaluation of round %d: only the check of the targeted property was run)' % r)
         print()
     print('| seed | breaks | confirmed | first evaluation%s | final evaluation (check of the targeted property; further checks only where it misses) | change | needs |' % (' (blind, frozen checks)' if r > 1 else ''))
     print('|---|---|---|---|---|---|---|')
